@@ -113,6 +113,36 @@ def rand_breaks(rng, T):
     return sorted(rng.sample(range(1, T), min(k, T - 1)))
 
 
+def edge_site(rng, T, bps):
+    """a position, preferably at / next to a break point or at an end"""
+    cand = [0, T - 1]
+    for b in bps:
+        cand += [b, b - 1, b + 1]
+    cand = [c for c in cand if 0 <= c < T]
+    return rng.choice(cand) if cand and rng.random() < 0.75 else rng.randrange(T)
+
+
+def posterior_ops(rng, T, bps, objs):
+    """posterior accessors in every form: all sites (fresh target vector / named target vector with and
+    without append, also a vector filled by another object), single site, per-site likelihoods"""
+    ops = []
+    for _ in range(rng.randint(1, 4)):
+        o = rng.choice(objs)
+        u = rng.random()
+        if u < 0.45:
+            b = rng.choice(["A", "A", "B"])
+            ops.append("postb %s %s %d" % (o, b, 1 if rng.random() < 0.65 else 0))
+        elif u < 0.6:
+            ops.append("post %s" % o)
+        elif u < 0.78:
+            ops.append("post1 %s %d" % (o, edge_site(rng, T, bps)))
+        elif u < 0.92:
+            ops.append("sl %s %d" % (o, edge_site(rng, T, bps)))
+        else:
+            ops.append("sls %s" % o)
+    return ops
+
+
 def generate(seed, tier):
     rng = random.Random(seed)
     thorough = tier == "thorough"
@@ -137,9 +167,8 @@ def generate(seed, tier):
             ops += ["brk r " + bs, "brk l " + bs, "brk g " + bs, "agree r l g"]
             if rng.random() < 0.5:
                 ops += ["post r", "post g"]
-            if rng.random() < 0.2:
-                ops += [rng.choice(["sls r", "sls g", "sl r %d" % rng.randrange(T), "sl g %d" % rng.randrange(T),
-                                    "post1 r %d" % rng.randrange(T), "post1 g %d" % rng.randrange(T)])]
+            if rng.random() < 0.3:
+                ops += posterior_ops(rng, T, b, ["r", "g"])
         cases.append(["case enum%d n=%d T=%d %s" % (i, n, T, kind)] + ops)
     # ---- chunk
     n_chunk = 120 if thorough else 30
@@ -168,10 +197,11 @@ def generate(seed, tier):
         for _ in range(3):
             bs = " ".join(map(str, rand_breaks(rng, T)))
             ops += ["brk r " + bs, "brk l " + bs, "brk g " + bs, "agree r l g"]
+        lastb = [int(x) for x in bs.split()]
         if T <= 300:
-            ops += ["post r", "post g", "sls r"]
+            ops += ["post r", "post g", "sls r", "postb g A 1", "postb g A 1"]
         else:
-            ops += ["post1 r %d" % rng.randrange(T), "post1 g %d" % rng.randrange(T), "sl r %d" % rng.randrange(T)]
+            ops += ["post1 r %d" % edge_site(rng, T, lastb), "post1 g %d" % edge_site(rng, T, lastb), "sl r %d" % edge_site(rng, T, lastb)]
         cases.append(["case long%d n=%d T=%d %s c=%d" % (i, n, T, kind, c)] + ops)
     # ---- hist
     n_hist = 400 if thorough else 90
@@ -184,8 +214,18 @@ def generate(seed, tier):
         c = rng.randint(1, T + 1)
         objs = ["r", "l", "g"]
         ops += ["build r resc 1", "build l low 1 %d" % c, "build g log 1"]
+        cur_b = []
+        made = set()
+        pre = ""
         for _ in range(rng.randint(3, 14)):
             u = rng.random()
+            if rng.random() < 0.06:
+                # setNamespace on the three objects: full parameter names (setParameters, derivative variables) change
+                pre = rng.choice(["x.", "hmm_", "a.b.", ""])
+                for o in objs:
+                    ops.append("ns %s %s" % (o, pre))
+                if rng.random() < 0.5:
+                    ops.append("names %s" % rng.choice(objs))
             if u < 0.35:
                 # one parameter, same update on all objects
                 which = rng.random() if kind != "stat" else 0.9
@@ -215,23 +255,23 @@ def generate(seed, tier):
                     v = rand_emission(rng, kind) if nm[0] == "e" else rng.choice([0.0, rng.random()])
                     if kind in ("pos", "stat"):
                         v = max(v, 1e-3)
-                    pairs += [nm, h(v)]
+                    pairs += [(pre if rng.random() < 0.95 else "") + nm, h(v)]
                 for o in objs:
                     ops.append("setps %s %s" % (o, " ".join(pairs)))
             elif u < 0.65:
-                bs = " ".join(map(str, rand_breaks(rng, T)))
+                cur_b = rand_breaks(rng, T)
+                bs = " ".join(map(str, cur_b))
                 for o in objs:
                     ops.append("brk %s %s" % (o, bs))
             elif u < 0.72:
                 ops.append("agree r l g")
-            elif u < 0.80:
+            elif u < 0.76:
                 ops.append("post %s" % rng.choice(["r", "g", "r", "g", "l"]))
-            elif u < 0.86:
-                ops.append("%s %s %d" % (rng.choice(["post1", "sl"]), rng.choice(["r", "g"]), rng.randrange(T)))
             elif u < 0.89:
-                ops.append("sls %s" % rng.choice(["r", "g"]))
+                ops += posterior_ops(rng, T, cur_b, ["r", "g", "r", "g", "l"])
             elif u < 0.96:
                 var = "e%d_%d" % (rng.randrange(T), rng.randrange(n)) if rng.random() < 0.85 else rng.choice(["p0_0", "f0", "zz"])
+                var = (pre if rng.random() < 0.9 else "") + var
                 o = rng.choice(["r", "r", "r", "g", "g", "l"])
                 dd = rng.choice(["d1", "d1", "d2"])
                 ops.append("%s %s %s" % (dd, o, var))
@@ -242,7 +282,15 @@ def generate(seed, tier):
                 # deep copy: the copy and the original then evolve independently
                 src = rng.choice(["r", "l", "g"])
                 dst = src + "2"
-                ops.append("clone %s %s" % (src, dst))
+                if dst in made and rng.random() < 0.6:
+                    # operator= onto an existing object of the same class (which has its own tables, break
+                    # points and caches), in either direction
+                    if rng.random() < 0.3:
+                        src, dst = dst, src
+                    ops.append("assign %s %s" % (src, dst))
+                else:
+                    ops.append("clone %s %s" % (src, dst))
+                    made.add(dst)
                 nm = "e%d_%d" % (rng.randrange(T), rng.randrange(n))
                 v = max(rand_emission(rng, kind), 1e-3) if kind in ("pos", "stat") else rand_emission(rng, kind)
                 ops += ["setp %s %s %s" % (dst, nm, h(v)), "brk %s %s" % (src, " ".join(map(str, rand_breaks(rng, T)))),
@@ -253,6 +301,76 @@ def generate(seed, tier):
                 ops.append("%s %s" % (rng.choice(["ll", "val"]), rng.choice(objs)))
         ops.append("agree r l g")
         cases.append(["case hist%d n=%d T=%d %s" % (i, n, T, kind)] + ops)
+    # ---- copy: copy constructor (clone) and operator= between objects of different sizes, with filled caches
+    n_copy = 120 if thorough else 30
+    for i in range(n_copy):
+        ops = []
+        dims = []
+        for tag in ("1", "2"):
+            n = rng.choice([1, 2, 2, 3, 4])
+            T = rng.randint(1, {1: 8, 2: 7, 3: 5, 4: 4}[n])
+            kind = rng.choice(["pos", "stat", "any"])
+            P, F, E = stationary_tables(rng, n, T) if kind == "stat" else tables(rng, n, T, kind)
+            dims.append((n, T, kind))
+            ops += stage(n, P, F, E)
+            ops += ["build r%s resc 1" % tag, "build g%s log 1" % tag, "build l%s low 1 %d" % (tag, rng.randint(1, T + 1))]
+            for o in ("r", "g", "l"):
+                ops.append("brk %s%s %s" % (o, tag, " ".join(map(str, rand_breaks(rng, T)))))
+            # fill some caches: backward arrays, derivative arrays
+            for _ in range(rng.randint(0, 3)):
+                o = rng.choice(["r", "g"]) + tag
+                ops.append(rng.choice(["post %s" % o, "d1 %s e%d_%d" % (o, rng.randrange(T), rng.randrange(n)),
+                                       "d2 %s e%d_%d" % (o, rng.randrange(T), rng.randrange(n)), "postb %s A 1" % o]))
+        for _ in range(rng.randint(2, 6)):
+            cls = rng.choice(["r", "g", "l", "r", "g"])
+            a, b = rng.choice([("1", "2"), ("2", "1"), ("1", "3"), ("2", "3"), ("3", "1")])
+            src, dst = cls + a, cls + b
+            if cls != "l" and b != "3":
+                # the two objects differ in what is cached: backward arrays / derivative arrays computed or not,
+                # up to date or not, when the assignment copies some of them
+                if rng.random() < 0.6:
+                    ops.append(rng.choice(["post %s", "post1 %s 0", "d1 %s e0_0", "d2 %s e0_0"]) % dst)
+                if rng.random() < 0.5:
+                    n_, T_, k_ = dims[0] if a == "1" else dims[1] if a == "2" else dims[0]
+                    v = max(rand_emission(rng, k_), 1e-3)
+                    ops.append("setp %s e%d_%d %s" % (src, rng.randrange(T_), rng.randrange(n_), h(v)))
+                elif rng.random() < 0.5:
+                    ops.append(rng.choice(["post %s", "d1 %s e0_0"]) % src)
+            elif cls != "l" and rng.random() < 0.7:
+                # the source of a copy has derivative arrays of some order for some variable
+                ops.append(rng.choice(["d1 %s e0_0", "d2 %s e0_0", "d1 %s e0_0", "post %s"]) % src)
+            if b == "3":
+                ops.append("clone %s %s" % (src, dst))
+            elif rng.random() < 0.1:
+                ops.append("assign %s %s" % (src, rng.choice(["r", "g", "l"]) + b))      # possibly another class
+            else:
+                ops.append("assign %s %s" % (src, dst))
+            if cls != "l" and rng.random() < 0.7:
+                # queried at once: what the copy answers from the copied caches
+                ops.append(rng.choice(["post %s", "postb %s A 1", "post1 %s 0", "sl %s 0", "sls %s", "d1 %s e0_0", "d2 %s e0_0",
+                                       "d2 %s e0_0", "dsite %s 0", "d2site %s 0"]) % dst)
+            # both evolve independently afterwards
+            for o in (dst, src):
+                tag = o[1]
+                for _ in range(rng.randint(1, 3)):
+                    n, T, kind = dims[0] if tag == "1" else dims[1] if tag == "2" else dims[0]
+                    u = rng.random()
+                    # (names of another object's size are harmless: unknown parameters / sites are refused alike)
+                    if u < 0.3:
+                        v = max(rand_emission(rng, kind), 1e-3) if kind in ("pos", "stat") else rand_emission(rng, kind)
+                        ops.append("setp %s e%d_%d %s" % (o, rng.randrange(T), rng.randrange(n), h(v)))
+                    elif u < 0.45:
+                        ops.append("brk %s %s" % (o, " ".join(map(str, rand_breaks(rng, T)))))
+                    elif u < 0.6:
+                        ops.append("ll %s" % o)
+                    elif u < 0.8 and cls != "l":
+                        ops += posterior_ops(rng, T, [], [o])
+                    elif cls != "l":
+                        var = "e%d_%d" % (rng.randrange(T), rng.randrange(n))
+                        ops.append("%s %s %s" % (rng.choice(["d1", "d2"]), o, var))
+                    else:
+                        ops.append("val %s" % o)
+        cases.append(["case copy%d" % i] + ops)
     # ---- bad
     n_bad = 80 if thorough else 20
     for i in range(n_bad):
@@ -291,6 +409,7 @@ def generate(seed, tier):
         P, F, E = stationary_tables(rng, n, T)
         ops = stage(n, P, F, E) + ["build r resc 1", "build g log 1"]
         last = None     # (order, variable) of the last derivative asked: asked again right after an update
+        cur_b = []
         for _ in range(rng.randint(4, 12)):
             u = rng.random()
             var = "e%d_%d" % (rng.randrange(T), rng.randrange(n))
@@ -298,6 +417,12 @@ def generate(seed, tier):
                 dd = rng.choice(["d1", "d2"])
                 ops += ["%s r %s" % (dd, var), "%s g %s" % (dd, var)]
                 last = (dd, var)
+                if rng.random() < 0.5:
+                    # per-site terms of the derivative just asked (the accessors have no variable argument)
+                    acc = "dsite" if dd == "d1" or rng.random() < 0.3 else "d2site"
+                    for _k in range(rng.randint(1, 3)):
+                        ops.append("%s r %d" % (acc, edge_site(rng, T, cur_b)))
+                        ops.append("%s g %d" % (acc, edge_site(rng, T, cur_b)))
             elif u < 0.62:
                 o = rng.choice(["r", "g"])
                 ops += ["d2 %s %s" % (o, var), "d1 %s %s" % (o, var)]
@@ -307,40 +432,135 @@ def generate(seed, tier):
                     v = h(10.0 ** (-rng.uniform(0, 3)))
                     ops += ["setp r %s %s" % (var, v), "setp g %s %s" % (var, v)]
                 else:
-                    bs = " ".join(map(str, rand_breaks(rng, T)))
+                    cur_b = rand_breaks(rng, T)
+                    bs = " ".join(map(str, cur_b))
                     ops += ["brk r " + bs, "brk g " + bs]
                 if last and rng.random() < 0.8:
                     ops += ["%s r %s" % last, "%s g %s" % last]
         cases.append(["case deriv%d n=%d T=%d stat" % (i, n, T)] + ops)
-    # ---- tm: the built-in transition models
-    n_tm = 200 if thorough else 40
+    # ---- ltm: likelihood objects whose transition matrix is a built-in model (derivatives read getPij(), the forward
+    # recursion Pij(i,j) and getEquilibriumFrequencies()); updates of the model's parameters through the likelihood
+    n_ltm = 160 if thorough else 40
+    for i in range(n_ltm):
+        kind = "auto" if i % 2 == 0 else "full"
+        n = rng.choice([1, 2, 2, 3, 3, 4])
+        T = rng.randint(1, {1: 8, 2: 7, 3: 5, 4: 4}[n])
+        ops = ["tm a %s %d" % (kind, n)]
+
+        def tm_update():
+            if kind == "auto":
+                w = rng.random()
+                v = rng.choice([0.0, 1.0, -0.1, 0.95]) if w < 0.08 else rng.uniform(0.05, 0.95)
+                return "lambda%d" % rng.randint(1, n) if rng.random() < 0.95 else "lambda%d" % (n + 1), v
+            w = rng.random()
+            v = rng.choice([0.0, 1.0, 0.5]) if w < 0.08 else rng.uniform(0.1, 0.9)
+            return ("%d.theta%d" % (rng.randint(1, n), rng.randint(1, max(1, n - 1))) if rng.random() < 0.95 else "%d.theta1" % (n + 1)), v
+
+        for _ in range(rng.randint(0, 2)):
+            nm, v = tm_update()
+            ops.append("tmset a %s %s" % (nm, h(v)))
+        if rng.random() < 0.5:
+            ops.append(rng.choice(["tmpij a", "tmeq a", "tmall a pe"]))       # the copy is taken with filled caches
+        E = [10.0 ** (-rng.uniform(0, 3)) for _ in range(n * T)]
+        ops += ["states %d" % n, "emis " + " ".join(h(x) for x in E)]
+        c = rng.randint(1, T + 1)
+        ops += ["buildtm r resc 1 a", "buildtm g log 1 a", "buildtm l low 1 a %d" % c, "agree r l g"]
+        objs = ["r", "g", "l"]
+        pre = ""
+        cur_b = []
+        for _ in range(rng.randint(3, 12)):
+            u = rng.random()
+            if u < 0.3:
+                nm, v = tm_update()
+                for o in objs:
+                    ops.append("setp %s %s %s" % (o, nm, h(v)))
+            elif u < 0.4:
+                nm = "e%d_%d" % (rng.randrange(T), rng.randrange(n))
+                v = 10.0 ** (-rng.uniform(0, 3))
+                for o in objs:
+                    ops.append("setp %s %s %s" % (o, nm, h(v)))
+            elif u < 0.62:
+                var = pre + "e%d_%d" % (rng.randrange(T), rng.randrange(n))
+                dd = rng.choice(["d1", "d2"])
+                ops += ["%s r %s" % (dd, var), "%s g %s" % (dd, var)]
+                if rng.random() < 0.3:
+                    ops.append("%s %s %d" % ("dsite" if dd == "d1" else "d2site", rng.choice(["r", "g"]), edge_site(rng, T, cur_b)))
+            elif u < 0.7:
+                cur_b = rand_breaks(rng, T)
+                for o in objs:
+                    ops.append("brk %s %s" % (o, " ".join(map(str, cur_b))))
+            elif u < 0.8:
+                ops += posterior_ops(rng, T, cur_b, ["r", "g"])
+            elif u < 0.86:
+                ops.append("agree r l g")
+            elif u < 0.91:
+                pre = rng.choice(["x.", "m_", ""])
+                for o in objs:
+                    ops.append("ns %s %s" % (o, pre))
+                ops.append("names %s" % rng.choice(objs))
+            elif u < 0.96:
+                # the objects hold copies: the original model moves on alone
+                nm, v = tm_update()
+                ops += ["tmset a %s %s" % (nm, h(v)), "ll r", "tmall a ep"]
+            else:
+                src = rng.choice(["r", "g"])
+                ops += ["clone %s %s2" % (src, src)]
+                nm, v = tm_update()
+                ops += ["setp %s2 %s %s" % (src, nm, h(v)), "ll %s" % src, "ll %s2" % src, "d1 %s2 %se0_0" % (src, pre)]
+        ops.append("agree r l g")
+        cases.append(["case ltm%d %s n=%d T=%d" % (i, kind, n, T)] + ops)
+    # ---- tm: the built-in transition models; every query (getPij, Pij, getEquilibriumFrequencies, all three at
+    # once in both orders) interleaved with updates that move one / several / the last / no parameter, clones and
+    # assignments
+    n_tm = 240 if thorough else 60
     for i in range(n_tm):
         kind = "auto" if i % 2 == 0 else "full"
-        n = rng.randint(2, 5) if kind == "auto" else rng.randint(2, 4)
-        ops = ["tm a %s %d" % (kind, n)]
+        n = rng.choice([1, 2, 2, 3, 3, 4, 5]) if kind == "auto" else rng.choice([1, 2, 2, 3, 3, 4])
+        ops = ["tm a %s %d" % (kind, n), "tm c %s %d" % (kind, rng.randint(1, 4))]
+
+        def query(o):
+            u = rng.random()
+            if u < 0.3:
+                return "tmpij %s" % o
+            if u < 0.5:
+                return "tmeq %s" % o
+            if u < 0.85:
+                return "tmall %s %s" % (o, rng.choice(["pe", "ep"]))
+            return "tmPij %s %d %d" % (o, rng.randrange(n), rng.randrange(n))
+
+        def update(o):
+            if kind == "auto":
+                w = rng.random()
+                v = rng.choice([0.0, 1.0, 1.5, -0.1, 0.95]) if w < 0.12 else rng.uniform(0.01, 0.99) if w < 0.9 else 1 - 10.0 ** (-rng.uniform(3, 12))
+                name = "lambda%d" % rng.randint(1, n) if rng.random() < 0.93 else rng.choice(["lambda0", "lambda%d" % (n + 1), "mu1"])
+                return "tmset %s %s %s" % (o, name, h(v))
+            if rng.random() < 0.5:
+                P = []
+                for _r in range(n):
+                    r = [rng.random() + 0.05 for _ in range(n)]
+                    if rng.random() < 0.05:
+                        r[rng.randrange(n)] = 0.0          # a zero entry: theta = 0 or 1 is refused by the constraint
+                    sm = (sum(r) or 1.0) * (1.0 if rng.random() < 0.95 else 1.01)   # not summing to one: refused
+                    P += [x / sm for x in r]
+                return "tmsetP %s %s" % (o, " ".join(h(x) for x in P))
+            w = rng.random()
+            v = rng.choice([0.0, 1.0, 1.5, -0.1, 0.5]) if w < 0.1 else rng.uniform(0.05, 0.95)
+            name = "%d.theta%d" % (rng.randint(1, n), rng.randint(1, max(1, n - 1))) if rng.random() < 0.93 else rng.choice(["1.theta%d" % n, "%d.theta1" % (n + 1), "theta1"])
+            return "tmset %s %s %s" % (o, name, h(v))
+
         for _ in range(rng.randint(3, 14)):
             u = rng.random()
             if u < 0.35:
-                if kind == "auto":
-                    w = rng.random()
-                    v = rng.choice([0.0, 1.0, 1.5, -0.1, 0.95]) if w < 0.12 else rng.uniform(0.01, 0.99) if w < 0.9 else 1 - 10.0 ** (-rng.uniform(3, 12))
-                    name = "lambda%d" % rng.randint(1, n) if rng.random() < 0.93 else rng.choice(["lambda0", "lambda%d" % (n + 1), "mu1"])
-                    ops.append("tmset a %s %s" % (name, h(v)))
-                else:
-                    P = []
-                    for _r in range(n):
-                        r = [rng.random() + 0.05 for _ in range(n)]
-                        sm = sum(r)
-                        P += [x / sm for x in r]
-                    ops.append("tmsetP a " + " ".join(h(x) for x in P))
-            elif u < 0.6:
-                ops.append("tmpij a")
-            elif u < 0.85:
-                ops.append("tmeq a")
-            elif u < 0.93 and kind == "auto":
-                ops.append("tmPij a %d %d" % (rng.randrange(n), rng.randrange(n)))
+                ops.append(update("a"))
+                if rng.random() < 0.5:
+                    ops.append(query("a"))
+            elif u < 0.8:
+                ops.append(query("a"))
+            elif u < 0.9:
+                ops += ["tmclone a b", query("b"), update("a"), query("b"), query("a")]
             else:
-                ops += ["tmclone a b", rng.choice(["tmeq b", "tmpij b"])]
+                # operator= onto an object of another size with its own caches, then both move on
+                ops += [query("c"), "tmassign a c", query("c"), update("c"), query("c"), query("a")]
         ops += ["tmpij a", "tmeq a"] if rng.random() < 0.5 else ["tmeq a", "tmpij a"]
         cases.append(["case tm%d %s n=%d" % (i, kind, n)] + ops)
     return cases
